@@ -12,8 +12,8 @@ ASSUMPTIONS = []
 
 
 def correspondence(seed, tier):
-    rs = [corr.run_corr(seed * 1000 + 90 + k, "C09_%d" % k, budget(tier, 25, 300), 20, {"with_random": False, "with_cross": True}) for k in range(budget(tier, 1, 2))]
-    rs += [corr.run_corr(seed * 1000 + 95, "C09_nocross", budget(tier, 6, 40), 6, {"with_random": False, "with_cross": False})]
+    rs = [corr.run_corr(seed * 1000 + 90 + k, "C09_%d" % k, budget(tier, 25, 300), 20, {"with_random": False, "with_cross": True, "with_lines": True}) for k in range(budget(tier, 1, 2))]
+    rs += [corr.run_corr(seed * 1000 + 95, "C09_nocross", budget(tier, 6, 40), 6, {"with_random": False, "with_cross": False, "with_lines": True})]
     return summarize_corr(rs)
 
 
@@ -39,7 +39,7 @@ def lift(w, g, p):
 def oracle(seed, tier):
     rng = random.Random(seed * 15485863 + 9)
     wdir = proto.workdir("C09_oracle")
-    worlds = gen_worlds(rng, wdir, "o", budget(tier, 20, 250), {"with_random": False, "with_cross": True})
+    worlds = gen_worlds(rng, wdir, "o", budget(tier, 20, 250), {"with_random": False, "with_cross": True, "with_lines": True})
     viol, cases, nontriv, samples = [], 0, 0, []
     lines, meta = [], []
     for wi, (path, w, g) in enumerate(worlds):
@@ -59,7 +59,7 @@ def oracle(seed, tier):
             lines.append(q3("w%d" % wi, p3, d, [(4, 0, 0)] + [pr for pr in props if pr[0] == 2])); meta.append(("near0",))
         lines.append("free w%d" % wi); meta.append(None)
     # worlds without cross section refuse
-    nocross = gen_worlds(rng, wdir, "n", budget(tier, 5, 30), {"with_random": False, "with_cross": False})
+    nocross = gen_worlds(rng, wdir, "n", budget(tier, 5, 30), {"with_random": False, "with_cross": False, "with_lines": True})
     for wi, (path, w, g) in enumerate(nocross):
         lines.append("world n%d %s -" % (wi, path)); meta.append(None)
         for props in ([(1, 0, 0)], [(2, 1, 0), (5, 0, 0)], [(3, 0, 2)]):
